@@ -316,7 +316,8 @@ def gen_case(seed, tier, prop):
     loop = LoopConfig(eager=rng.random() < 0.3, cap=6000,
                       p_late=rng.choice([0, 0, 0.2]), p_stall=rng.choice([0, 0, 0.05])).to_json()
     return {"engine": "permits", "prop": prop, "kind": kind, "cap": cap, "maxv": maxv, "tasks": tasks,
-            "ext": ext, "loop": loop, "sched_seed": rng.getrandbits(32)}
+            "ext": ext, "loop": loop, "sched_seed": rng.getrandbits(32),
+            "outside": rng.random() < 0.2}      # the primitive is created before the event loop exists (adapter classes)
 
 
 # ------------------------------------------------------------------------------------------
@@ -406,18 +407,36 @@ class PermitRun:
         return self.h.rec(*f)
 
     # -- program -----------------------------------------------------------------------------------
+    def make_prim(self):
+        case = self.case
+        cap = INF if case["cap"] == "inf" else case["cap"]
+        if self.base == "lock":
+            return Lock(fast_acquire=self.kind == "lock_fast")
+        if self.base == "sem":
+            return Semaphore(cap, max_value=case["maxv"], fast_acquire=self.kind == "sem_fast")
+        if case.get("outside") and case["sched_seed"] % 2:
+            # adapter only: the total is assigned while no event loop exists yet and must be what the real limiter gets
+            lim = CapacityLimiter(1 if cap != 1 else 2)
+            lim.total_tokens = cap
+            return lim
+        return CapacityLimiter(cap)
+
     async def main(self):
         self.h.loop = loop = self.sim.loop
         case = self.case
         cap = INF if case["cap"] == "inf" else case["cap"]
+        if self.pre_prim is not None:
+            # created before the event loop existed: anyio hands out an *Adapter object that builds the real
+            # primitive on first use inside the loop
+            self.prim = self.pre_prim
+            self.probes["primitive_created_outside_the_loop:" + type(self.prim).__name__] = 1
+        else:
+            self.prim = self.make_prim()
         if self.base == "lock":
-            self.prim = Lock(fast_acquire=self.kind == "lock_fast")
             self.model = Model("lock", 1, None, self.faults)
         elif self.base == "sem":
-            self.prim = Semaphore(cap, max_value=case["maxv"], fast_acquire=self.kind == "sem_fast")
             self.model = Model("sem", cap, case["maxv"], self.faults)
         else:
-            self.prim = CapacityLimiter(cap)
             self.model = Model("lim", cap, None, self.faults)
         self.ntasks_done = 0
         for t, what, arg in case["ext"]:
@@ -747,6 +766,7 @@ class PermitRun:
 
     def execute(self):
         sim = self.sim
+        self.pre_prim = self.make_prim() if self.case.get("outside") else None
         sim.run(self.main)
         if sim.outcome == "deadlock":
             self.v("stuck", f"would block forever: {sim.error}; pending acquires={sorted(self.model.pending) if self.model else None}")
